@@ -6,6 +6,7 @@ import (
 	"fmt"
 	"testing"
 
+	gots "github.com/Comcast/gots/v2"
 	"github.com/Comcast/gots/v2/packet"
 	"github.com/Comcast/gots/v2/packet/adaptationfield"
 	"pgregory.net/rapid"
@@ -468,6 +469,15 @@ func checkC03(c CaseC03, x *hx.Ctx) *hx.Failure {
 		return hx.Failf("bad-case", "case packet must be well-formed with a non-empty adaptation field")
 	}
 	p := packet.Packet(b)
+	// a second packet with an adaptation field of its own (PCR + private data), and a live AdaptationField
+	// object for it, sit next to the packet under test: nothing done to one packet may show in another
+	byModel := &ref.Packet{Sync: 0x47, PID: 0x0234, AFC: 3, CC: 5, AF: &ref.AF{Len: 40, RA: true, PCR: hexp([]byte{0x12, 0x34, 0x56, 0x78, 0x7E, 0x11}), TPD: hexp([]byte("bystander"))}, Payload: bytes.Repeat([]byte{0xBB}, 143)}
+	byBytes := byModel.MustBytes()
+	by := packet.Packet(byBytes)
+	byAF, byErr := by.AdaptationField()
+	if byErr != nil {
+		return hx.Failf("bystander", "AdaptationField() failed on a well-formed packet: %v", byErr)
+	}
 	var hist []string
 	var nSize, nRefused, nRemoveNonEmpty, nRepeat, nExact, nCopy int
 	knownGetter := false
@@ -488,6 +498,12 @@ func checkC03(c CaseC03, x *hx.Ctx) *hx.Failure {
 		}
 		err := c03Call(&p, o)
 		where := fmt.Sprintf("step %d %s after %v (af_len %d, content before %d)", i, o, hist[:i], m.AF.Len, m.AF.Content())
+		if by != packet.Packet(byBytes) {
+			return hx.Failf("bystander-packet-changed", "%s: another packet (with its own adaptation field) changed", where)
+		}
+		if v, perr := byAF.PCR(); perr != nil || v != gots.ExtractPCR([]byte{0x12, 0x34, 0x56, 0x78, 0x7E, 0x11}) {
+			return hx.Failf("bystander-getter", "%s: PCR() of another packet's adaptation field is (%d, %v)", where, v, perr)
+		}
 		if err != nil && len(err.Error()) > 16 && err.Error()[:16] == "harness-observed" {
 			return hx.Failf("copyaf-mutates-source", "%s: %v", where, err)
 		}
